@@ -4,6 +4,8 @@
 #include <interfaces/chain.h>
 #include <key.h>
 #include <scheduler.h>
+#include <script/descriptor.h>
+#include <wallet/scriptpubkeyman.h>
 #include <util/check.h>
 #include <util/time.h>
 #include <wallet/coincontrol.h>
@@ -86,6 +88,29 @@ bool WalletNode::Sign(CMutableTransaction& m)
 }
 
 void WalletNode::Commit(const CTransactionRef& tx) { w->CommitTransaction(tx); }
+
+std::map<CScript, OutputType> InternalScripts(wallet::CWallet& w, int count)
+{
+    std::map<CScript, OutputType> out;
+    LOCK(w.cs_wallet);
+    for (OutputType t : OUTPUT_TYPES) {
+        auto* spkm = dynamic_cast<wallet::DescriptorScriptPubKeyMan*>(w.GetScriptPubKeyMan(t, /*internal=*/true));
+        if (!spkm) continue;
+        std::string desc_str;
+        if (!spkm->GetDescriptorString(desc_str, /*priv=*/false)) throw std::runtime_error("walletnode: no descriptor string");
+        FlatSigningProvider keys;
+        std::string err;
+        auto parsed = Parse(desc_str, keys, err, /*require_checksum=*/true);
+        if (parsed.size() != 1) throw std::runtime_error("walletnode: cannot parse " + desc_str + ": " + err);
+        for (int i = 0; i < count; i++) {
+            std::vector<CScript> spks;
+            FlatSigningProvider o;
+            if (!parsed[0]->Expand(i, keys, spks, o)) throw std::runtime_error("walletnode: cannot expand " + desc_str);
+            for (auto& s : spks) out[s] = t;
+        }
+    }
+    return out;
+}
 
 std::vector<CTransactionRef> MempoolTxs(ck::Node& n)
 {
@@ -347,6 +372,81 @@ CTransactionRef World::Pay(const Ext& from, const std::vector<std::pair<CScript,
     if (rest < 0) throw std::logic_error("World::Pay: coin too small");
     if (rest >= 1000) vo.push_back({rest, ck::OpTrueSpk()});
     return MakeTransactionRef(ck::MakeTx({{from.op, sequence, true}}, vo));
+}
+
+const char* World::KindName(int k)
+{
+    static const char* names[] = {"p2wpkh", "p2pkh", "p2tr", "p2sh-p2wpkh", "immature-coinbase", "locked", "unconfirmed-from-self", "unconfirmed-external"};
+    return k >= 0 && k < K_COUNT ? names[k] : "?";
+}
+
+World::Prepared World::PrepareCoins(unsigned mask)
+{
+    Prepared P;
+    std::vector<unsigned char> raw(32, 0x21);
+    P.ext_key.Set(raw.begin(), raw.end(), /*fCompressedIn=*/true);
+    const CScript ext_spk = GetScriptForDestination(WitnessV0KeyHash(P.ext_key.GetPubKey()));
+    auto has = [&](int k) { return (mask >> k) & 1; };
+    struct Want { int kind; OutputType type; CAmount value; };
+    const Want wants[] = {
+        {K_P2WPKH, OutputType::BECH32, 100000000}, {K_P2PKH, OutputType::LEGACY, 50000000}, {K_P2TR, OutputType::BECH32M, 25000000},
+        {K_P2SH_P2WPKH, OutputType::P2SH_SEGWIT, 12500000}, {K_LOCKED, OutputType::BECH32, 30000000}, {K_UNCONF_SELF, OutputType::BECH32, 20000000}};
+    // block A: the confirmed payments, each from its own external coin, and the external P2WPKH coin
+    std::vector<CTransactionRef> pay;
+    auto ext = ExternalCoins();
+    size_t next = 0;
+    std::map<int, COutPoint> conf;
+    for (auto& wt : wants) {
+        if (!has(wt.kind)) continue;
+        auto tx = Pay(ext.at(next++), {{wn->NewAddrSpk(wt.type), wt.value}});
+        pay.push_back(tx);
+        conf[wt.kind] = COutPoint(tx->GetHash(), 0);
+    }
+    {
+        auto tx = Pay(ext.at(next++), {{ext_spk, 40000000}});
+        pay.push_back(tx);
+        P.ext_op = COutPoint(tx->GetHash(), 0);
+        P.ext_out = tx->vout[0];
+    }
+    MineTip(pay);
+    for (auto& [k, op] : conf) if (k != K_UNCONF_SELF) P.op[k] = op;
+    // block B: coinbase to the wallet (immature for the next 100 blocks)
+    if (has(K_IMMATURE_CB)) {
+        uint256 bh = MineTip({}, wn->NewAddrSpk(OutputType::BECH32));
+        P.op[K_IMMATURE_CB] = COutPoint(L.blocks.at(bh).block.vtx[0]->GetHash(), 0);
+    }
+    // mempool: a wallet transaction spending its confirmed coin (change back to the wallet) ...
+    if (has(K_UNCONF_SELF)) {
+        CMutableTransaction m;
+        m.version = 2;
+        m.vin.emplace_back(conf.at(K_UNCONF_SELF), CScript(), 0xfffffffd);
+        m.vout.emplace_back(15000000, wn->NewChangeSpk(OutputType::BECH32));
+        m.vout.emplace_back(20000000 - 15000000 - 3000, ck::OpTrueSpk());
+        if (!wn->Sign(m)) throw std::logic_error("PrepareCoins: wallet cannot sign");
+        auto tx = MakeTransactionRef(m);
+        wn->Commit(tx);
+        Note(tx);
+        auto r = Submit(tx);
+        if (r.m_result_type != MempoolAcceptResult::ResultType::VALID) throw std::logic_error("PrepareCoins: own spend rejected: " + r.m_state.ToString());
+        P.op[K_UNCONF_SELF] = COutPoint(tx->GetHash(), 0);
+    }
+    // ... and an external payment to the wallet
+    if (has(K_UNCONF_EXT)) {
+        auto e2 = ExternalCoins();
+        auto tx = Pay(e2.at(0), {{wn->NewAddrSpk(OutputType::BECH32), 11000000}});
+        auto r = Submit(tx);
+        if (r.m_result_type != MempoolAcceptResult::ResultType::VALID) throw std::logic_error("PrepareCoins: external payment rejected: " + r.m_state.ToString());
+        P.op[K_UNCONF_EXT] = COutPoint(tx->GetHash(), 0);
+    }
+    if (has(K_LOCKED)) {
+        LOCK(W().cs_wallet);
+        W().LockCoin(P.op.at(K_LOCKED), /*persist=*/false);
+    }
+    View(); // notes every relevant transaction
+    for (auto& [id, k] : known)
+        for (uint32_t i = 0; i < k.tx->vout.size(); i++) P.prevouts[COutPoint(id, i)] = k.tx->vout[i];
+    P.prevouts[P.ext_op] = P.ext_out;
+    return P;
 }
 
 bool World::Relevant(const CTransaction& tx) const
